@@ -132,6 +132,8 @@ type c02Harness struct {
 	lastH    int64
 	decided  int
 	kinds    map[string]int
+	onOwn    func(mi msgInfo) // called for every message the node put on its internal queue
+	hardCap  int
 }
 
 func (h *c02Harness) hashID(b []byte) uint64 {
@@ -334,8 +336,11 @@ func (h *c02Harness) deliver(term, descr string, fn func()) {
 	}
 	for _, mi := range pending {
 		mi := mi
-		if len(h.steps) >= c02HardCap { // a one-validator chain runs by itself: stop feeding it
+		if len(h.steps) >= h.hardCap { // a one-validator chain runs by itself: stop feeding it
 			break
+		}
+		if h.onOwn != nil {
+			h.onOwn(mi)
 		}
 		t, d := h.inputTerm(mi)
 		h.deliver(t, "internal: "+d, func() { h.cs.handleMsg(mi) })
@@ -493,7 +498,8 @@ func (h *c02Harness) fire(ti timeoutInfo, kind string) {
 
 // ---------------------------------------------------------------- one history
 
-func c02NewHarness(r *vg.Rand, n int, powers []int64, meValidator bool, skip bool) *c02Harness {
+// c02Genesis builds a genesis state with the given powers; pvs are ordered by validator index.
+func c02Genesis(r *vg.Rand, n int, powers []int64) (sm.State, []types.MockPV) {
 	vals := make([]types.GenesisValidator, n)
 	pvByAddr := map[string]types.MockPV{}
 	for i := 0; i < n; i++ {
@@ -507,26 +513,36 @@ func c02NewHarness(r *vg.Rand, n int, powers []int64, meValidator bool, skip boo
 	if err != nil {
 		panic(err)
 	}
+	pvs := make([]types.MockPV, n)
+	for i, v := range state.Validators.Validators {
+		pvs[i] = pvByAddr[string(v.Address)]
+	}
+	return state, pvs
+}
+
+// c02NewNode builds one real consensus.State for validator index me (or an observer if me < 0).
+// Nodes of one network share the id tables of [shared] so that block/signature ids agree.
+func c02NewNode(r *vg.Rand, state sm.State, pvs []types.MockPV, me int, skip bool, shared *c02Harness) *c02Harness {
 	h := &c02Harness{rec: &c02Rec{}, hashIDs: map[string]uint64{}, pshIDs: map[string]uint64{}, sigIDs: map[string]uint64{},
 		byPSH: map[string]*c02Block{}, cands: map[int64][]*c02Block{}, props: map[int64][]int64{}, kinds: map[string]int{}}
-	h.pvs = make([]types.MockPV, n)
-	for i, v := range state.Validators.Validators {
-		h.pvs[i] = pvByAddr[string(v.Address)]
+	if shared != nil {
+		h.hashIDs, h.pshIDs, h.sigIDs, h.byPSH, h.props = shared.hashIDs, shared.pshIDs, shared.sigIDs, shared.byPSH, shared.props
 	}
-	h.me = r.Intn(n)
+	h.pvs = pvs
+	h.me = me
+	h.hardCap = c02HardCap
 	thisConfig := cfg.ResetTestRoot("verif_c02")
 	thisConfig.Consensus.SkipTimeoutCommit = skip
 	thisConfig.Consensus.CreateEmptyBlocks = true
 	thisConfig.Consensus.CreateEmptyBlocksInterval = 0
 	var pv types.PrivValidator
-	if meValidator {
+	if me >= 0 {
 		pv = &c02PV{MockPV: h.pvs[h.me], rec: h.rec, h: h}
 	} else {
 		outsider := types.NewMockPVWithParams(ed25519.GenPrivKeyFromSecret(r.Bytes(16)), false, false)
 		pv = &c02PV{MockPV: outsider, rec: h.rec, h: h}
-		h.me = -1
 	}
-	cs := newStateWithConfigAndBlockStore(thisConfig, state, pv, kvstore.NewApplication(), dbm.NewMemDB())
+	cs := newStateWithConfigAndBlockStore(thisConfig, state.Copy(), pv, kvstore.NewApplication(), dbm.NewMemDB())
 	cs.SetLogger(log.NewNopLogger())
 	h.cs = cs
 	h.ticker = &c02Ticker{rec: h.rec, c: make(chan timeoutInfo, 1)}
@@ -541,6 +557,15 @@ func c02NewHarness(r *vg.Rand, n int, powers []int64, meValidator bool, skip boo
 	h.rec.outs = nil
 	h.ensureProposers()
 	return h
+}
+
+func c02NewHarness(r *vg.Rand, n int, powers []int64, meValidator bool, skip bool) *c02Harness {
+	state, pvs := c02Genesis(r, n, powers)
+	me := r.Intn(n)
+	if !meValidator {
+		me = -1
+	}
+	return c02NewNode(r, state, pvs, me, skip, nil)
 }
 
 func (h *c02Harness) others() []int {
